@@ -68,6 +68,25 @@ theorem SafeInv.storeForEach {t : Streams} (h : SafeInv t) (f : Streams → Nat 
     (hf : ∀ t id, SafeInv t → SafeInv (f t id)) : SafeInv (t.storeForEach f) := by
   unfold Streams.storeForEach; exact h.storeTryForEach _ (fun t id ht => hf t id ht)
 
+theorem Fr.storeTryForEach' {s t : Streams} {f : Streams → Nat → Streams × Option PErr}
+    (hf : ∀ t id, Fr s t → Fr s (f t id).1) (h : Fr s t) : Fr s (t.storeTryForEach f).1 := h.storeTryForEach f hf
+theorem Fr.storeForEach' {s t : Streams} {f : Streams → Nat → Streams}
+    (hf : ∀ t id, Fr s t → Fr s (f t id)) (h : Fr s t) : Fr s (t.storeForEach f) := h.storeForEach f hf
+theorem SafeInv.storeTryForEach' {t : Streams} {f : Streams → Nat → Streams × Option PErr}
+    (hf : ∀ t id, SafeInv t → SafeInv (f t id).1) (h : SafeInv t) : SafeInv (t.storeTryForEach f).1 :=
+  h.storeTryForEach f hf
+theorem SafeInv.storeForEach' {t : Streams} {f : Streams → Nat → Streams}
+    (hf : ∀ t id, SafeInv t → SafeInv (f t id)) (h : SafeInv t) : SafeInv (t.storeForEach f) :=
+  h.storeForEach f hf
+
+-- (only usable when the source state of the goal is known, i.e. from `fr_auto`, not from `safe_step`)
+macro_rules | `(tactic| fr_peel) => `(tactic| first
+  | (with_reducible apply Fr.storeTryForEach'; (· intro _ _ _; (try dsimp only); fr_auto))
+  | (with_reducible apply Fr.storeForEach'; (· intro _ _ _; (try dsimp only); fr_auto)))
+macro_rules | `(tactic| safe_peel) => `(tactic| first
+  | (with_reducible apply SafeInv.storeTryForEach'; (· intro _ _ _; (try unfold Streams.transition); (try dsimp only); safe_auto))
+  | (with_reducible apply SafeInv.storeForEach'; (· intro _ _ _; (try unfold Streams.transition); (try dsimp only); safe_auto)))
+
 -- ===================================================================== SETTINGS_INITIAL_WINDOW_SIZE lowered
 
 theorem wrapAddU32_small {a b : Nat} (h : a + b < 4294967296) : wrapAddU32 a b = a + b := by
@@ -206,7 +225,7 @@ theorem SafeInv.sendApplyRemoteSettings {s : Streams} (h : SafeInv s) (iws push 
   case some.none => safe_auto
   all_goals (
     have hv := hiws _ rfl
-    generalize hX : (if _ < _ then _ else _ : Streams × Option PErr) = X
+    generalize hX : (if (_ : Nat) < _ then _ else _ : Streams × Option PErr) = X
     have hX1 : SafeInv X.1 := by
       rw [← hX]
       split
@@ -215,11 +234,9 @@ theorem SafeInv.sendApplyRemoteSettings {s : Streams} (h : SafeInv s) (iws push 
         · exact (SafeInv.tryForEachAcc_eq ‹_› (by safe_auto)).assignConnectionCapacity
       · split
         · refine SafeInv.storeTryForEach (by safe_auto) _ (fun t id ht => ?_)
-          have := ht.sendRecvStreamWindowUpdate id _ (by omega)
-          dsimp only
           split
-          · rename_i heq; rw [heq] at this; exact this
-          · rename_i heq; rw [heq] at this; exact this
+          · rename_i heq; exact SafeInvG.of_fst_eq heq (ht.sendRecvStreamWindowUpdate _ _ (by omega))
+          · rename_i heq; exact SafeInvG.of_fst_eq heq (ht.sendRecvStreamWindowUpdate _ _ (by omega))
         · safe_auto
     clear hX
     split
